@@ -535,6 +535,7 @@ class BaseParser:
 
         for key, field in self.fields.items():
             value = unprovided
+            conflict = unprovided
             name = field.attname if as_attname else field.name
 
             if excluded_keys and name in excluded_keys:
@@ -552,7 +553,7 @@ class BaseParser:
                             value = data[alias]
                         else:
                             if data[alias] != value:
-                                context.handle_error(exc.AliasConflictError(item=name, value=data[alias]))
+                                conflict = data[alias]
                                 break
 
             if unprovided(value):
@@ -577,6 +578,10 @@ class BaseParser:
                 if not unprovided(default):
                     result[name] = default
                 continue
+
+            if not options.ignore_alias_conflicts and not unprovided(conflict):
+                # reported only for fields that do take input (as the data-first strategy does)
+                context.handle_error(exc.AliasConflictError(item=name, value=conflict))
 
             parsed = field.parse_value(value, context=context)
             if unprovided(parsed):
